@@ -10,7 +10,7 @@ PY = "/venv/bin/python"
 # id -> (category, technique, level text, level note, design ref)
 CHECKS = {
     "C03": ("exploration",
-            "Hypothesis-generated trajectory sets vs literal pair-count reference model; metamorphic (additivity, presentation, permutation); exhaustive small sub-domain in thorough",
+            "Hypothesis-generated trajectory sets vs literal pair-count reference model; metamorphic (additivity, presentation, permutation); RaggedArrays built from flat data plus a narrow-dtype lengths table whose running total passes the table's type; exhaustive small sub-domain in thorough",
             "Generated-input search with an independent reference (double loop over lagged pairs). Every clause of the statement is a separate Hypothesis test; thorough shards 16 ways and enumerates a finite sub-domain completely. Not a proof: absence of counter-examples in the explored space.",
             "Trusts numpy integer arithmetic and the reference loop; state ids non-negative, -1 only as trailing padding.",
             "DESIGN.md §2 C03"),
@@ -20,7 +20,7 @@ CHECKS = {
             "OpenMP schedule not controllable (thread count only); |int64| <= 2^53 and |float| <= 1e6; libasan/libubsan from gcc 12 as the memory oracle.",
             "DESIGN.md §2 C13"),
     "C20": ("exploration",
-            "Hypothesis-generated angle histories built region-by-region against a reference hysteresis state machine (whole-sequence, one-step stay/exit oracles, zero-buffer binning, prefix/restart metamorphic); exhaustive grid enumeration in thorough; transition tables vs literal per-row loop",
+            "Hypothesis-generated angle histories built region-by-region against a reference hysteresis state machine (whole-sequence, one-step stay/exit oracles, zero-buffer binning, prefix/restart metamorphic); exhaustive grid enumeration in thorough; RotamerFeaturizer.fit on 1..4 trajectory pieces vs the reference machine started afresh per trajectory; transition tables vs literal per-row loop",
             "Generated-input search with an independent plain-python circular-interval state machine as reference model; gate values are avoided by construction, seam approaches and buffer zones are forced by the region generator; the thorough tier enumerates all length<=4 sequences over a 24-point grid for the library's boundary sets. Transition bookkeeping is compared with a literal loop for 1-D, 2-D and ragged inputs.",
             "Angles in [0,360) at >= 1e-6 from gate values; library boundary sets with every buffer its range check admits; random boundary sets with limited buffers.",
             "DESIGN.md §2 C20"),
